@@ -152,16 +152,35 @@ func TestC15(t *testing.T) {
 			defs = append(defs, lang.FuncDef{N: "bump", Params: []string{"p"}, Body: []lang.Stmt{
 				lang.IncDec{N: "p", Op: op}, lang.Compound{N: "p", Op: "+", X: lang.Lit{V: lang.Int(2)}}, lang.Return{X: lang.Name{N: "p"}}}})
 		}
-		// the mutation of exactly one name
+		// mutations, possibly interleaved with further copies: step, copy,
+		// step again on the same variable must leave the copy alone
+		nmut := rapid.IntRange(1, 4).Draw(rt, "nmut")
 		target := rapid.SampledFrom(names).Draw(rt, "target")
-		nmut := rapid.IntRange(1, 2).Draw(rt, "nmut")
 		for i := 0; i < nmut; i++ {
+			if gen.Uniform(rt, "switchtarget", 4) == 0 {
+				target = rapid.SampledFrom(names).Draw(rt, "target2")
+			}
 			switch gen.Uniform(rt, "mutkind", 3) {
 			case 0, 1:
 				inner = append(inner, lang.IncDec{N: target, Op: rapid.SampledFrom([]string{"++", "--"}).Draw(rt, "mop")})
 			default:
 				inner = append(inner, lang.Compound{N: target, Op: rapid.SampledFrom([]string{"+", "-", "*", "/"}).Draw(rt, "cop"),
 					X: lang.Lit{V: lang.Int(rapid.Int64Range(1, 5).Draw(rt, "k"))}})
+			}
+			if i < nmut-1 && gen.Uniform(rt, "copybetween", 2) == 0 {
+				n := fmt.Sprintf("m%d", i)
+				switch gen.Uniform(rt, "betweenkind", 3) {
+				case 0:
+					inner = append(inner, lang.Assign{N: n, X: lang.Name{N: target}})
+					names = append(names, n)
+				case 1:
+					inner = append(inner, lang.Assign{N: n, X: lang.ArrayLit{Elems: []lang.Expr{lang.Name{N: target}}}})
+					observe = append(observe, lang.Name{N: n})
+				default:
+					inner = append(inner, lang.Assign{N: n, X: lang.HashLit{Keys: []lang.Expr{lang.Lit{V: lang.Str("k")}}, Vals: []lang.Expr{lang.Name{N: target}}}})
+					observe = append(observe, lang.Name{N: n})
+				}
+				aliases++
 			}
 		}
 		if rapid.Bool().Draw(rt, "loopvar") {
